@@ -50,9 +50,9 @@ theorem litScan_quoteBody (s R : Bytes) :
     rw [litScan_piece 34 (by decide) _ _ (quoteByte_litPiece c), ih]
     simp [LitScan.add]; omega
 
-/-- The scanner reads back every literal the natural `"`-printer writes — same exclusion as the
-unquoter's (D16) — and stops at the closing quote whatever follows. -/
-theorem tokenRes_quoteDouble (s R : Bytes) (h : noPair 39 s = true) :
+/-- The scanner reads back every literal the natural `"`-printer writes and stops at the closing
+quote whatever follows. -/
+theorem tokenRes_quoteDouble (s R : Bytes) :
     tokenRes 34 (quoteBody 34 false s ++ 34 :: R) =
       .tok (.lit s) ((quoteBody 34 false s).length + 2) 0 := by
   have hsym : isSymbol 34 = false := by decide
@@ -61,7 +61,7 @@ theorem tokenRes_quoteDouble (s R : Bytes) (h : noPair 39 s = true) :
     simp only [quoteDouble, List.cons.injEq, true_and]
     rw [show (quoteBody 34 false s).length + 1 = (quoteBody 34 false s ++ [34]).length by simp,
       show quoteBody 34 false s ++ 34 :: R = (quoteBody 34 false s ++ [34]) ++ R by simp, List.take_left]
-  simp only [tokenRes, literalRes, hsym, litScan_quoteBody, htake, unquoteDouble_quoteDouble s h]
+  simp only [tokenRes, literalRes, hsym, litScan_quoteBody, htake, unquoteDouble_quoteDouble s]
   simp
 
 /-- bytes that cannot continue a number started by decimal digits. -/
